@@ -1014,6 +1014,8 @@ class R:
                 # a different object that compares equal to the manager, held in a local that comes early in f_locals
                 self.emit(1, "eqdecoy%d = MEq(%d)" % (it["m"], it["m"]))
         self.emit(1, "lpick = pick; lgetdct = getdct")
+        if self.p.get("big_const"):
+            self.emit(1, "bigmask = 0x1" + "f" * 6000)
         if self.p.get("odd_locals"):
             self.emit(1, "oddl_dead = dead_proxy(); oddl_lazy = LazyObject(); oddl_meth = nameless_method(oddl_lazy)")
             self.emit(1, "oddl_hostile = hostile_methods(oddl_lazy); oddl_h0 = oddl_hostile[0]; oddl_h1 = oddl_hostile[1]")
